@@ -222,11 +222,13 @@ def operation(d, scn, model):
             return pio.accessor.file_exists("nope")
         raise ValueError(op)
     pio = open_pio(d, scn)
+    _LAST["acc"] = pio.accessor
     if op == "write-new-shard":
         for cc, shard in sh_chunks():
             if shard == 1:
                 model[cc].append(sh_arr(cc, 2))
                 pio.write_chunk(sh_arr(cc, 2), KEY, cc)
+        _LAST["stores_done"] = True
         with sandbox.quiet():
             return _close(pio.accessor)
     if op == "rewrite-shard":
@@ -234,12 +236,16 @@ def operation(d, scn, model):
             if shard == 0:
                 model[cc].append(sh_arr(cc, 2))
                 pio.write_chunk(sh_arr(cc, 2), KEY, cc)
+        _LAST["stores_done"] = True
         with sandbox.quiet():
             return _close(pio.accessor)
     if op == "read":
         cc = sh_chunks()[1][0]
         return pio.read_chunk(KEY, cc).tobytes()
     raise ValueError(op)
+
+
+_LAST = {}
 
 
 def _close(acc):
@@ -307,6 +313,24 @@ def execute(scn, deviations, use_sim=True):
             except BaseException as exc:
                 outcome = ("exc", type(exc).__name__, str(exc)[:120],
                            [c.__name__ for c in type(exc).__mro__])
+        # A sharded accessor registers its close() as an exit handler: after
+        # a failed operation the interpreter (or a caller retrying) calls
+        # close() once more, now without any fault. If that call returns
+        # normally it claims that everything was written.
+        retry = None
+        stores_done = bool(_LAST.get("stores_done"))
+        tree_pre = dir_tree(d)      # what the failed operation itself left
+        if (scn["kind"] == "sharded" and scn["op"] != "read"
+                and outcome[0] == "exc" and use_sim
+                and _LAST.get("acc") is not None
+                and hasattr(_LAST["acc"], "close")):
+            try:
+                with sandbox.quiet():
+                    _LAST["acc"].close()
+                retry = ("ok", stores_done)
+            except BaseException as exc:
+                retry = ("exc", type(exc).__name__)
+        _LAST.clear()
         sandbox.drop_captured_exit_handlers()
         if tmpd is not None:
             import tempfile
@@ -329,7 +353,8 @@ def execute(scn, deviations, use_sim=True):
                         obs[name] = ("ok", rd.accessor.fetch_file(name))
                 except Exception as exc:
                     obs[name] = ("exc", type(exc).__name__)
-        return {"outcome": outcome, "points": list(sim.points), "tree": t,
+        return {"outcome": outcome, "retry": retry, "tree_pre": tree_pre,
+                "points": list(sim.points), "tree": t,
                 "obs": obs, "model": model, "applied": list(sim.applied),
                 "opened_for_write": list(sim.opened_for_write)}
     finally:
@@ -369,7 +394,10 @@ def judge(col, case, scn, ref, run, devs):
     tp = target_paths(scn)
     target_opened = any(any(frag in p for frag in tp)
                         for p in run["opened_for_write"])
-    target_unlinked = False
+    if run.get("retry") is not None:
+        # the close() repeated after the failure ran without the seam and
+        # may itself have opened (and written) the target
+        target_opened = True
 
     def bad(sig, exp, obs):
         nonlocal ok
@@ -402,6 +430,19 @@ def judge(col, case, scn, ref, run, devs):
                         out[1] if not isinstance(out[1], bytes)
                         else out[1][:20], "same" if run["tree"]
                         == ref["tree"] else "differs"))
+    # ---- the exit handler / a retry after the failed operation
+    if run.get("retry") == ("ok", True):
+        # every chunk had been handed over and only close() failed: a later
+        # close() that returns normally claims that all of them are written
+        for name, versions in run["model"].items():
+            if len(versions) > 1:
+                o = run["obs"].get(name, ("exc", "?"))
+                if not matches(o, versions[-1]):
+                    bad("fault/close-after-a-failed-close-returned-normally-"
+                        "without-writing", "the new data written, or an "
+                        "error", "%s: %r" % (name, o[:2] if o[0] == "exc"
+                                             else "old data"))
+                    break
     # ---- what a later reader sees
     for name, versions in run["model"].items():
         o = run["obs"].get(name, run["obs"].get("open", ("exc", "?")))
@@ -549,13 +590,13 @@ def conformance_unit(col, items):
         sim_kind = {"ok": "ok", "exc": "exc", "killed": "killed"}[so[0]]
         same = (res["outcome"] == sim_kind
                 and (sim_kind != "exc" or res.get("type") == so[1])
-                and real_tree == sim_run["tree"])
+                and real_tree == sim_run["tree_pre"])
         if not same:
             raise RuntimeError(
                 "seam/kernel mismatch for %r point %d %r dev %r: seam -> "
                 "%r, tree %r; strace -> %r, tree %r" % (
                     scn, k, pts[k], dev, so[:2],
-                    [p for p, _ in sim_run["tree"]], res,
+                    [p for p, _ in sim_run["tree_pre"]], res,
                     [p for p, _ in real_tree]))
         col.ev(1, 1, "conformance-ok")
         col.extra("conformance_replays")
